@@ -167,3 +167,23 @@ def _mem_roll_unfused(case, v):
     per rolled axis, but is projected like an aligned concat."""
     return (v.get("cls") == "task_exceeds_projected_mem" and v.get("func") == "roll" and not v.get("fused")
             and any(st["op"] == "roll" for st in case["prog"]["steps"]))
+
+
+@matcher("mem_var_narrow_dtype_temporaries")
+def _mem_var(case, v):
+    """var/std (and nan variants) of an array narrower than float64: the first round computes (a - mean) and
+    its square as float64 temporaries of full chunk size, which the projection (sized on the input dtype) misses."""
+    if v.get("cls") != "task_exceeds_projected_mem" or v.get("fused"):
+        return False
+    if v.get("func") not in ("var", "std", "nanvar", "nanstd"):
+        return False
+    import numpy as np
+
+    return any(np.dtype(i["dtype"]).itemsize < 8 for i in case["prog"]["inputs"])
+
+
+@matcher("mem_nan_reduction_mask_temporaries")
+def _mem_nanred(case, v):
+    """nan-reductions build NaN masks / replaced copies of the whole chunk in their first round."""
+    return (v.get("cls") == "task_exceeds_projected_mem" and not v.get("fused")
+            and str(v.get("func", "")).startswith("nan") and v.get("ratio", 9) < 1.2)
